@@ -82,7 +82,12 @@ def fold_evaluators(ck: Checker, R: str):
         inputs = [l for l, t, _ in spec if t == 'INPUT']
         labels = [l for l, _, _ in spec]
         ops_of = {l: ops for l, _, ops in spec}
-        c = M.new_circuit(stored, outs)
+        # built through the repository's own constructors (so that the users index is the repository's own bookkeeping)
+        try:
+            c = M.build_circuit(stored, outs)
+        except InterpRaise as e:
+            probs['evaluate_full_circuit'].append(f'building the circuit through _emplace_gate / set_outputs raises {e.exc_name}')
+            continue
         desc = f'{[(l, t) + tuple(o) for l, t, o in stored if t != "INPUT"]} (gates in storage order) outputs {list(outs)}'
         reach = set()
         stack = list(outs)
@@ -284,6 +289,11 @@ def fold_traversals(ck: Checker, R: str):
         ([('a', 'INPUT', ()), ('g', 'NOT', ('g',))], ('g',), True),
         ([('a', 'INPUT', ()), ('g', 'XOR', ('a', 'a')), ('h', 'AND', ('g', 'g')), ('o', 'OR', ('h', 'g'))], ('o', 'o'), False),
         ([('a', 'INPUT', ()), ('p', 'AND', ('a', 'r')), ('q', 'OR', ('p', 'a')), ('r', 'NOT', ('q',)), ('o', 'IFF', ('q',))], ('o',), True),
+        # several outputs: one nobody reads with an acyclic cone, the cycle only below outputs that other gates read (an output on the cycle)
+        ([('a', 'INPUT', ()), ('b', 'INPUT', ()), ('k', 'NOT', ('b',)), ('p', 'AND', ('a', 'q')), ('q', 'OR', ('p', 'b'))], ('k', 'q'), True),
+        ([('a', 'INPUT', ()), ('b', 'INPUT', ()), ('k', 'NOT', ('b',)), ('p', 'AND', ('a', 'q')), ('q', 'OR', ('p', 'b')), ('u', 'IFF', ('q',))], ('q', 'k', 'q'), True),
+        # ... and the cycle in a part no output reaches
+        ([('a', 'INPUT', ()), ('b', 'INPUT', ()), ('k', 'NOT', ('b',)), ('p', 'AND', ('a', 'q')), ('q', 'OR', ('p', 'b'))], ('k', 'a'), False),
     ):
         n += 1
         c = M.new_circuit(spec, outs)
